@@ -716,6 +716,7 @@ fn main() {
                 w.feed(&built[short].shreds[i], None);
             }
             w.rec.oracle(w.count_ev("block") == 1 && w.count_ev("invalid") == 0 && w.count_ev("first") == 1, "honest-block-once", || format!("events {:?} after completing slice {short}", w.events));
+            w.rec.oracle(w.count_ev("invalid") == 0, "honest-never-invalid", || format!("InvalidBlock for an honest block delivered in two parts: events {:?}; specs {:?}", w.events, specs));
             let fp = final_parent(&specs);
             let txs = all_txs(&specs);
             check_served(&mut w, hid, &h, &built, fp, &txs, &mut rng, false);
